@@ -226,6 +226,11 @@ void Digest(std::uint64_t v) noexcept;
 void OverrideStats(std::uint32_t fibers, std::uint64_t switches, std::uint64_t steps) noexcept;
 [[noreturn]] void Die(const char* cls, const char* msg);
 
+// Plain (non-atomic) accesses the harness wants the C04 happens-before engine to see (no-ops outside the race variant):
+// payload cells written before a fulfilment and read after observing it, and the fields of Tracked.
+void RaceRead(const void* addr, std::size_t size) noexcept;
+void RaceWrite(const void* addr, std::size_t size) noexcept;
+
 int CounterId(const char* name);  // registers a named counter (probe_* / fault_* / stat_*), returns its index
 void CounterAdd(int id, std::uint64_t n = 1) noexcept;
 void CountDyn(const char* name);  // counter whose name is computed at run time (cell coverage)
@@ -262,6 +267,7 @@ class Tracked {
   Tracked() noexcept : Tracked{0} {
   }
   explicit Tracked(std::uint32_t id) noexcept : _id{id}, _inv{~id}, _state{kAlive} {
+    RaceWrite(this, sizeof *this);
     ++detail::gTrackedLive;
   }
   Tracked(const Tracked& o) noexcept {
@@ -272,6 +278,7 @@ class Tracked {
   Tracked(Tracked&& o) noexcept {
     CopyFrom(o);
     if (o._state == kAlive) {
+      RaceWrite(&o, sizeof o);
       o._state = kMoved;
     }
     ++detail::gTrackedLive;
@@ -302,12 +309,14 @@ class Tracked {
     } else if (_state != kAlive && _state != kMoved) {
       Fail("GARBAGE_DESTROY", "destructor ran on something that is not a Tracked (state byte 0x%02x)", _state);
     }
+    RaceWrite(this, sizeof *this);
     _state = kDead;
     --detail::gTrackedLive;
   }
 
   // Oracle-side read: the value must be alive, whole and not moved-from. Returns the id (0xFFFFFFFF on violation).
   std::uint32_t Read(const char* who) const noexcept {
+    RaceRead(this, sizeof *this);
     if (_state != kAlive) {
       Fail(_state == kMoved ? "MOVED_FROM_READ" : (_state == kDead ? "USE_AFTER_DESTROY" : "GARBAGE_READ"),
            "%s read a Tracked in state 0x%02x (id field %u)", who, _state, _id);
@@ -341,6 +350,8 @@ class Tracked {
     } else if (o._state != kAlive && o._state != kMoved) {
       Fail("GARBAGE_READ", "copy/move from something that is not a Tracked (state byte 0x%02x)", o._state);
     }
+    RaceRead(&o, sizeof o);
+    RaceWrite(this, sizeof *this);
     _id = o._id;
     Point();
     _inv = o._inv;
